@@ -38,10 +38,13 @@ type FuncContract struct {
 	Sweep    bool // safety obligations of this function count for C15
 	Trusted  bool
 	Guards   []string // locations guarded by the lock this function takes
-	Theory   bool     // include the navigator theory axioms
+	Theory   bool     // include the theory axioms from the start
+	NoCover  bool     // quantified navigator axioms: satisfiability (cover) queries do not terminate
 	NoPanic  bool     // no panic may leave this function
 	MayPanic bool     // callers must expect a panic
 	Preserves []string // heap key patterns the function leaves untouched (except on fresh objects)
+	Receiver string // parameter that plays the receiver for ghost updates / disjoint-operands of a plain function
+	DisjointOperands bool // assumed: other query values in the caller's scope are not sub-queries of the receiver
 	TreeFrame bool    // assumed: the call does not write the caller's own receiver object (query trees are trees)
 }
 
@@ -198,8 +201,15 @@ func parseContracts(path string) (*Contracts, error) {
 				}
 			case "theory":
 				cur.Theory = true
+				if strings.Contains(rest, "nav") {
+					cur.NoCover = true
+				}
 			case "tree-frame":
 				cur.TreeFrame = true
+			case "disjoint-operands":
+				cur.DisjointOperands = true
+			case "receiver":
+				cur.Receiver = rest
 			case "preserves":
 				for _, m := range strings.Split(rest, ",") {
 					if m = strings.TrimSpace(m); m != "" {
@@ -221,6 +231,12 @@ func parseContracts(path string) (*Contracts, error) {
 				cl := &Clause{Kind: kw, Line: ln}
 				cl.Label, cl.Props, rest = parseLabel(rest)
 				cl.Expr = rest
+				cur.Clauses = append(cur.Clauses, cl)
+				last = cl
+			case "ghost":
+				// ghost k(self) = expr : history-variable update performed at every call
+				i := strings.Index(rest, "=")
+				cl := &Clause{Kind: "ghost", Name: strings.TrimSpace(rest[:i]), Expr: strings.TrimSpace(rest[i+1:]), Line: ln}
 				cur.Clauses = append(cur.Clauses, cl)
 				last = cl
 			case "let":
